@@ -368,7 +368,7 @@ def compare(op, a, b, ctx):
 
 def tolerated_outcome(plan, op, a, b):
     """Outcome-class differences that are not engine divergences in the sense of C20."""
-    if op.get("op") == "narrow" and op.get("fn") == "epa":
+    if op.get("op") == "narrow" and op.get("fn") in ("epa", "epa_big"):
         # EPA's polytope-capacity assertion (allowed by C19 for smooth shapes, known finding F1 for polytopes) is reached
         # or not depending on ulp-level differences in a path-dependent expansion, typically on degenerate input such as
         # the same object passed twice; one engine asserting where the other returns is not compared
